@@ -139,7 +139,7 @@ module Sk = struct
        | [] -> ()
        | t :: _ when t.[0] = '#' -> ()
        | "====" :: _ | _ when String.length l >= 4 && String.sub l 0 4 = "====" ->
-           print_endline l; Hashtbl.reset cid_of_pal; next_cid := 0; issued := []; st := init (nat_of_int !maxthr);
+           print_endline l; maxthr := 0; Hashtbl.reset cid_of_pal; next_cid := 0; issued := []; st := init (nat_of_int !maxthr);
            dead := false; opn := 0; started := false
        | _ when !dead -> ()
        | opname :: args ->
@@ -157,8 +157,9 @@ module Sk = struct
               | Err e -> Printf.printf "ERR %s\n" (err_name e); dead := true) in
            (match opname, args with
             | "reg", p :: _ -> Printf.printf "R %d\n" (reg_pal (int_of_string p))
-            | "maxthreads", [n] -> maxthr := int_of_string n; print_endline "R"
-            | ("threads" | "chunkcap" | "regs"), _ -> print_endline "R"
+            | "maxthreads", [n] -> maxthr := max !maxthr (int_of_string n); print_endline "R"
+            | "threads", [n] -> maxthr := max !maxthr (int_of_string n + 1); print_endline "R"
+            | ("chunkcap" | "regs"), _ -> print_endline "R"
             | ("arm" | "disarm" | "verchunk"), _ -> start (); print_endline "R"; dump !st
             | ("create" | "createarch"), tid :: pals -> apply (Create (nat_of_int (int_of_string tid), n_of_int (key_of pals)))
             | "destroy", [tid; h] -> apply (Destroy (nat_of_int (int_of_string tid), parse_handle h))
@@ -202,7 +203,7 @@ module SkS = struct
        | [] -> ()
        | t :: _ when t.[0] = '#' -> ()
        | _ when String.length l >= 4 && String.sub l 0 4 = "====" ->
-           print_endline l; Hashtbl.reset cid_of_pal; next_cid := 0; sp := sp_init (nat_of_int !maxthr);
+           print_endline l; maxthr := 0; Hashtbl.reset cid_of_pal; next_cid := 0; sp := sp_init (nat_of_int !maxthr);
            dead := false; opn := 0; started := false
        | _ when !dead -> ()
        | opname :: args ->
@@ -211,8 +212,9 @@ module SkS = struct
            let ni s = nat_of_int (int_of_string s) in
            (match opname, args with
             | "reg", p :: _ -> ignore (reg_pal (int_of_string p))
-            | "maxthreads", [n] -> maxthr := int_of_string n
-            | ("threads" | "chunkcap" | "regs"), _ -> ()
+            | "maxthreads", [n] -> maxthr := max !maxthr (int_of_string n)
+            | "threads", [n] -> maxthr := max !maxthr (int_of_string n + 1)
+            | ("chunkcap" | "regs"), _ -> ()
             | ("arm" | "disarm" | "verchunk" | "valid"), _ -> start (); dump !sp
             | ("create" | "createarch"), tid :: pals -> apply (SoCreate (ni tid, n_of_int (key_of pals)))
             | "destroy", [tid; h] -> apply (SoDestroy (ni tid, nat_of_int (parse_k h)))
@@ -363,7 +365,10 @@ module Mg = struct
     let cis = prescan lines in
     (* restart registration so that R of `reg` prints the same ids as the driver *)
     let maxthr = ref 16 in
-    Stdlib.List.iter (fun l -> match split_ws l with ["maxthreads"; n] -> maxthr := int_of_string n | _ -> ()) lines;
+    Stdlib.List.iter (fun l -> match split_ws l with
+      | ["maxthreads"; n] -> maxthr := max !maxthr (int_of_string n)
+      | ["threads"; n] -> maxthr := max !maxthr (int_of_string n + 1)     (* onLock: max(cores, threadCount() + 1) buffers *)
+      | _ -> ()) lines;
     let st = ref (init (nat_of_int !maxthr) cis) in
     issued := [];
     let dead = ref false in
@@ -435,7 +440,19 @@ module Mg = struct
          | "dep", a :: pals -> let (m, _) = parse_pals pals in apply (ODep (cid a, n_of_int m))
          | "verchunk", [n] -> apply (OVerChunk (ni n))
          | "chunkfn", mn :: mx :: pals -> let (m, _) = parse_pals pals in apply (OChunkFn (ni mn, ni mx, n_of_int m))
-         | _ -> print_endline "ERR unsupported-op"; dead := true)) lines
+         | "teardown", _ ->
+             (match step !st OTeardown with
+              | Ok (s', _) -> print_endline "R";
+                  Printf.printf "E%s\n" (String.concat "" (Stdlib.List.map (fun e -> " " ^ ev_str e) (Stdlib.List.rev s'.log)));
+                  dead := true
+              | Err e -> Printf.printf "ERR %s\n" (err_name e); dead := true)
+         | _ -> print_endline "ERR unsupported-op"; dead := true)) lines;
+    if not !dead then begin
+      Printf.printf "op %d (implicit teardown)\n" !opn;
+      (match step !st OTeardown with
+       | Ok (s', _) -> Printf.printf "E%s\n" (String.concat "" (Stdlib.List.map (fun e -> " " ^ ev_str e) (Stdlib.List.rev s'.log)))
+       | Err e -> Printf.printf "ERR %s\n" (err_name e))
+    end
 
   let run () =
     let cur_name = ref None and cur = ref [] in
@@ -475,13 +492,16 @@ module MgS = struct
     Stdlib.List.iter (fun (k, c) ->
       let inf = Stdlib.List.nth s.x_cinfos c in
       if inf.Manager.ci_aa || inf.Manager.ci_br then
-        Printf.printf "X #%d:%d att=%d det=%d\n" k c (count s.x_att k c) (count s.x_det k c)) keys
+        Printf.printf "X #%d:%d att=%d det=%d\n" k (int_of_nat inf.Manager.ci_pal) (count s.x_att k c) (count s.x_det k c)) keys
 
   let run_script name (lines : string list) =
     print_endline name;
     let cis = Mg.prescan lines in
     let maxthr = ref 16 in
-    Stdlib.List.iter (fun l -> match split_ws l with ["maxthreads"; n] -> maxthr := int_of_string n | _ -> ()) lines;
+    Stdlib.List.iter (fun l -> match split_ws l with
+      | ["maxthreads"; n] -> maxthr := max !maxthr (int_of_string n)
+      | ["threads"; n] -> maxthr := max !maxthr (int_of_string n + 1)
+      | _ -> ()) lines;
     let st = ref (x_init (nat_of_int !maxthr) cis) in
     let opn = ref 0 in
     let dead = ref false in
@@ -499,7 +519,7 @@ module MgS = struct
         let nk h = nat_of_int (parse_k h) in
         (match opname, args with
          | ("reg" | "regs" | "maxthreads" | "threads" | "chunkcap"), _ -> ()
-         | ("arm" | "disarm" | "verchunk" | "chunkfn" | "getconst" | "getmut" | "has" | "markdirty" | "valid" | "archof" | "getshared"), _ -> dump !st
+         | ("arm" | "disarm" | "teardown" | "verchunk" | "chunkfn" | "getconst" | "getmut" | "has" | "markdirty" | "valid" | "archof" | "getshared"), _ -> dump !st
          | ("create" | "createarch"), tid :: pals -> let (m, sids) = Mg.parse_pals pals in
              apply (XoCreate (ni tid, n_of_int m, Stdlib.List.map nat_of_int sids, opname = "createarch"))
          | "destroy", [tid; h] -> apply (XoDestroy (ni tid, nk h))
